@@ -65,6 +65,15 @@ func corpus() [][]*label {
 			&label{kind: "UpdPos", r: "cdc", t: "t1", c: 0, cname: "c0", ch: "ch1", p: pi(7, 3)},
 			&label{kind: "GetPos", r: "cdc", t: "t1", c: -10}, &label{kind: "GetPos", r: "cdc", t: "t1", c: -1},
 			&label{kind: "DelPos", r: "cdc", t: "t1", c: -1}, &label{kind: "GetPos", r: "cdc", t: "t1"}, &label{kind: "DelPos", r: "cdc", t: "t1", c: -10}, &label{kind: "GetPos", r: "cdc", t: "t1"}},
+		// two consumers (one per downstream channel) save the checkpoints of two shards of one collection at the same time;
+		// then a checkpoint is saved while the collection's drop is recorded
+		{&label{kind: "PutInfo", r: "cdc", info: info("t1", 1, "")}, &label{kind: "PutPos", r: "cdc", pos: pos("t1", 7, map[string]*pinfo{"ch1": pi(5, 1), "ch2": pi(5, 2)})},
+			&label{kind: "Par", r: "cdc", t: "t1", c: 7, a: &label{kind: "UpdPos", r: "cdc", t: "t1", c: 7, cname: "c7", ch: "ch1", p: pi(6, 3)},
+				b: &label{kind: "UpdPos", r: "cdc", t: "t1", c: 7, cname: "c7", ch: "ch2", p: pi(6, 4)}},
+			&label{kind: "GetPos", r: "cdc", t: "t1", c: 7},
+			&label{kind: "Par", r: "cdc", t: "t1", c: 7, a: &label{kind: "UpdPos", r: "cdc", t: "t1", c: 7, cname: "c7", ch: "ch1", p: pi(7, 5)},
+				b: &label{kind: "DropState", r: "cdc", t: "t1", c: 7}},
+			&label{kind: "GetPos", r: "cdc", t: "t1", c: 7}},
 		// deleting a task with a failure at each store call
 		{&label{kind: "PutInfo", r: "cdc", info: info("t1", 2, "")}, &label{kind: "PutPos", r: "cdc", pos: pos("t1", 1, map[string]*pinfo{"ch1": pi(5, 1)})},
 			&label{kind: "PutPos", r: "cdc", pos: pos("t1", 10, map[string]*pinfo{"ch1": pi(5, 1)})}, &label{kind: "PutInfo", r: "cdc", info: info("t10", 2, "")},
@@ -104,6 +113,19 @@ func generate(a *hx.Args) []*label {
 		root := roots[r.Intn(len(roots))]
 		t := tasks[r.Intn(len(tasks))]
 		c := collPool[r.Intn(len(collPool))]
+		if r.Intn(25) == 0 {
+			// concurrent checkpoint operations on one record that exists
+			cc := []int64{1, 10, 100, 7}[r.Intn(4)]
+			a := &label{kind: "UpdPos", r: root, t: t, c: cc, cname: cname(cc), ch: "ch1", p: must(), op: pi()}
+			b := &label{kind: "UpdPos", r: root, t: t, c: cc, cname: cname(cc), ch: "ch2", p: must(), op: pi()}
+			a.p.dropped, b.p.dropped = false, false
+			if r.Intn(3) == 0 {
+				b = &label{kind: "DropState", r: root, t: t, c: cc}
+			}
+			ls = append(ls, &label{kind: "PutPos", r: root, pos: pos(t, cc, map[string]*pinfo{"ch1": {time: 1, key: "tk", tok: 1}, "ch2": {time: 1, key: "tk", tok: 2}})},
+				&label{kind: "Par", r: root, t: t, c: cc, a: a, b: b})
+			continue
+		}
 		switch k := r.Intn(100); {
 		case k < 12:
 			ls = append(ls, &label{kind: "PutInfo", r: root, info: info(t, r.Intn(3), []string{"", "why"}[r.Intn(2)])})
